@@ -68,12 +68,22 @@ def run(chk, repo, tier):
             return it.call_func(exp, [prk, info, L], {})
         paths = enumerate_paths(w, run1, int_bindings={key: n})
         if n <= 255:
-            ok = len(paths) == 1 and paths[0].outcome == "return"
-            used = ok and any(ev["kind"] == "case_split" for ev in paths[0].events)
+            # ceil(length / 32) = n bounds length: 32(n−1) < length <= 32n (n = 0: length <= 0); a path whose facts put length
+            # outside is not an execution with this n (e.g. an explicit `length > 255·32` guard)
+            feas = []
+            for pth in paths:
+                lo_, hi_, _h, _o = interval_of_facts([(a, t) for a, t, _w in pth.facts], L)
+                if lo_ > 32 * n or (n > 0 and hi_ <= 32 * (n - 1)):
+                    continue
+                feas.append(pth)
+            ok = len(feas) == 1 and feas[0].outcome == "return"
+            used = ok and any(ev["kind"] == "case_split" for ev in feas[0].events)
             wantt = rfc.hkdf_expand(SHA, prk, info, L, n)
-            gott = paths[0].value if ok else None
+            gott = feas[0].value if ok else None
             chk.ob("C16.R1", exp.qualname, f"n = {n}", ok and used and gott is wantt,
-                   (f"got {show(gott)[:300]}; want {show(wantt)[:300]}" if ok else f"{len(paths)} paths / {paths[0].outcome}")
+                   (f"got {show(gott)[:300]}; want {show(wantt)[:300]}" if ok else
+                    f"{len(feas)} feasible paths / {feas[0].outcome if feas else '-'}"
+                    + (f" {feas[0].value.clsname()} at {feas[0].value.where}" if feas and feas[0].outcome == "raise" else ""))
                    + ("" if used else "; n is not computed as ceil(length / 32)"), exp.where, nontrivial=n > 0)
         else:
             ok = all(p.outcome == "raise" for p in paths)
